@@ -175,7 +175,24 @@ pub fn history_props(id: &str) -> Option<HistoryProp> {
                    an incremental build",
             cfg: RunCfg { structure: true, search_exact: true, build_must_succeed: true, ..Default::default() },
             tiers: vec![
-                HistoryTier { label: "C14-mem", gen: gen_c14(), quick: 450, thorough: 12_000 },
+                HistoryTier { label: "C14-mem", gen: gen_c14(), quick: 400, thorough: 12_000 },
+                // growth-only incremental rounds of several memory batches on forests with many single-item
+                // children (no deletion frees node ids, so every new node is a fresh one)
+                HistoryTier {
+                    label: "C14-grow",
+                    gen: GenCfg {
+                        op_weights: [97, 3, 0, 0, 0],
+                        rounds: (2, 3),
+                        first_ops: (60, 300),
+                        later_ops: (220, 600),
+                        split_after: vec![(2, vec![None]), (3, vec![Some(1), Some(2), Some(3)])],
+                        n_trees: vec![(1, vec![None]), (4, vec![Some(2), Some(3), Some(4)])],
+                        avail_mem: vec![(1, vec![None]), (6, vec![Some(0), Some(4096), Some(3 * 4096), Some(10 * 4096)])],
+                        ..gen_c14()
+                    },
+                    quick: 150,
+                    thorough: 4000,
+                },
                 HistoryTier {
                     label: "C14-small",
                     gen: GenCfg {
@@ -248,7 +265,7 @@ fn gen_c14() -> GenCfg {
         max_indexes: 1,
         rounds: (1, 3),
         first_ops: (150, 700),
-        later_ops: (30, 400),
+        later_ops: (30, 700),
         id_pool: (150, 1500),
         threads: vec![1, 2, 4],
         split_after: vec![(3, vec![None]), (2, vec![Some(1), Some(7)]), (2, vec![Some(150), Some(200), Some(250), Some(400)])],
